@@ -464,6 +464,32 @@ pub fn build_module_content(rng: &mut Rng, module: &mut Module, rec: &mut Record
             }
         }
     }
+    // VARIANT_CODING: VAR_CRITERION is the one element in which an open-ended identifier list is
+    // directly followed by optional keyword elements; every combination of the two is built
+    if rng.chance(1, 4) && module.variant_coding.is_none() {
+        let mut vc = VariantCoding::new();
+        for k in 0..rng.urange(1, 4) {
+            let mut c = VarCriterion::new(format!("crit_{k}"), text(rng));
+            for v in 0..rng.below(4) {
+                c.value_list.push(format!("val_{v}"));
+            }
+            if rng.coin() {
+                c.var_measurement = Some(VarMeasurement::new(ident(rng)));
+            }
+            if rng.coin() {
+                c.var_selection_characteristic = Some(VarSelectionCharacteristic::new(ident(rng)));
+            }
+            vc.var_criterion.push(c);
+        }
+        if rng.coin() {
+            vc.var_separator = Some(VarSeparator::new(".".into()));
+        }
+        if rng.coin() {
+            vc.var_naming = Some(VarNaming::new(VarNamingTag::Numeric));
+        }
+        module.variant_coding = Some(vc);
+        rec.bump("api.VariantCoding");
+    }
 }
 
 /// a model built entirely through `new()` / `T::new()` / `push`
